@@ -15,8 +15,9 @@ STUBS = CP.STUBS + ["networkx.dag_longest_path (the path computation is C09's su
 ASSUMPTIONS = CP.ASSUMPTIONS
 BUDGET_S = {"quick": 540, "thorough": 3300}
 BOUNDS = {
-    "quick": "10 structures (1..2 operators with 0..3 launch/kernel pairs on 1..2 streams, cudaStreamSynchronize + Stream "
-             "Sync, cudaDeviceSynchronize + Context Sync, a sync between two launches) x windows {ProfilerStep instance 0, "
+    "quick": "13 structures (1..2 operators with 0..3 launch/kernel pairs on 1..2 streams, cudaStreamSynchronize + Stream "
+             "Sync, cudaDeviceSynchronize + Context Sync, a sync between two launches, cudaEventRecord + "
+             "cudaStreamWaitEvent (GPU->GPU) and + cudaEventSynchronize (GPU->CPU)) x windows {ProfilerStep instance 0, "
              "whole trace '', an operator name} x zero-weight launch edges {off,on}; second operator inside or outside the "
              "window; all times symbolic Int consistent with the structure and with causality",
     "thorough": "10 structures (up to 3 launches, cudaDeviceSynchronize/Context Sync, sync between launches, two operators "
@@ -42,7 +43,8 @@ def skeletons(tier):
     if tier == "quick":
         for n in CP.STRUCTS:
             add(n, "", None, False, False, "all")
-            add(n, "ProfilerStep", 0, False, True, "all")
+            if n != "N":
+                add(n, "ProfilerStep", 0, False, True, "all")
             add(n, "", None, True, False, "all")
         for n in ("D", "G"):
             add(n, "ProfilerStep", 0, False, True, "free")     # second operator inside or outside the window
@@ -156,6 +158,15 @@ def check_graph(ctx, g, R, P, m):
             if ok and b["kind"] == "host":
                 waits = b["syncev"]["waits"]
                 ctx.prove(any(k["id"] == a["id"] for k in waits), "sync-edge-from-a-kernel-the-call-waits-for", d)
+            if ok and b["kind"] == "kernel":
+                # GPU->GPU: b was launched after a cudaStreamWaitEvent on its stream that waits for a
+                pairs = []
+                for h in H:
+                    if "waitevent" in h:
+                        for k in h["waitevent"]["src"]:
+                            pairs.append((k["id"], h["waitevent"]["stream"]))
+                ctx.prove(any(a["id"] == kid and b["stream"] == st for kid, st in pairs),
+                          "gpu-gpu-sync-edge-matches-a-stream-wait-event", d)
     ctx.prove(nx.is_directed_acyclic_graph(g), "graph-is-acyclic", None)
     if ctx.mode == "sym" and len(g.node_list) >= 6 and kinds & {"KERNEL_LAUNCH_DELAY", "KERNEL_KERNEL_DELAY"}:
         ctx.nontrivial(True)
